@@ -150,28 +150,30 @@ theorem chunkLoop_eq_TD (s : List α) (n : Nat) (hn : 1 ≤ n) (k i : Nat)
       | cons x xs => exact ⟨x, xs, rfl⟩
     obtain ⟨x, xs, hx⟩ := hne
     have hstart : xsChunkStart (i : Int) (n : Int) = ((i * n : Nat) : Int) := by simp [xsChunkStart, Int.natCast_mul]
-    have hend : xsChunkEnd (i : Int) (n : Int) = (((i + 1) * n : Nat) : Int) := by simp [xsChunkEnd, Int.natCast_mul]
+    have hend : xsChunkEnd ((i * n : Nat) : Int) (n : Int) = (((i + 1) * n : Nat) : Int) := by
+      simp only [xsChunkEnd]; rw [Nat.succ_mul]; omega
     have hnext := ih (i + 1) (by rw [Nat.succ_mul]; omega) (by rw [Nat.succ_mul]; omega)
     have e1 : ((i : Int) + 1) = ((i + 1 : Nat) : Int) := by omega
     rw [XSlices.chunkLoop, hstart, hend, e1, hnext]
     have hdd : s.drop ((i + 1) * n) = (s.drop (i * n)).drop n := by
       rw [List.drop_drop, Nat.succ_mul]
     have hL : (s.drop (i * n)).length = s.length - i * n := by simp
-    by_cases hcl : (i + 1) * n > s.length
-    · have hc : xsChunkClamp ((((i + 1) * n : Nat) : Int)) (s.length : Int) = true := by
-        simp only [xsChunkClamp, gt_iff_lt, decide_eq_true_eq]
-        exact Int.ofNat_lt.mpr hcl
-      simp only [hc, if_true]
+    by_cases hcl : (i + 1) * n ≥ s.length
+    · have hc : xsChunkFull (s.length : Int) ((i * n : Nat) : Int) (n : Int) = false := by
+        simp only [xsChunkFull, gt_iff_lt, decide_eq_false_iff_not]
+        rw [Nat.succ_mul] at hcl
+        omega
+      simp only [hc, Bool.false_eq_true, if_false, xsChunkEndLast]
       rw [slice_nat s (i * n) s.length (by omega) (Nat.le_refl _)]
       simp only
       rw [hx, Seq.chunkTD, ← hx, hdd]
       rw [Nat.succ_mul] at hcl
       rw [List.take_length, List.take_of_length_le (by rw [hL]; omega)]
-    · have hc : xsChunkClamp ((((i + 1) * n : Nat) : Int)) (s.length : Int) = false := by
-        simp only [xsChunkClamp, gt_iff_lt, decide_eq_false_iff_not]
-        intro h
-        exact hcl (Int.ofNat_lt.mp h)
-      simp only [hc, Bool.false_eq_true, if_false]
+    · have hc : xsChunkFull (s.length : Int) ((i * n : Nat) : Int) (n : Int) = true := by
+        simp only [xsChunkFull, gt_iff_lt, decide_eq_true_eq]
+        rw [Nat.succ_mul] at hcl
+        omega
+      simp only [hc, if_true]
       rw [slice_nat s (i * n) ((i + 1) * n) (by rw [Nat.succ_mul]; omega) (by omega)]
       simp only
       rw [hx, Seq.chunkTD, ← hx, hdd, List.drop_take]
@@ -181,10 +183,20 @@ theorem chunkLoop_eq_TD (s : List α) (n : Nat) (hn : 1 ≤ n) (k i : Nat)
 /-- **`xslices.Chunk(s, n)`, `n ≥ 1`, is `Seq.chunk n s`** (no panic). -/
 theorem chunk_eq (s : List α) (n : Nat) (hn : 1 ≤ n) : XSlices.chunk s (n : Int) = some (Seq.chunk n s) := by
   have hp : xsChunkPanics (n : Int) = false := by simp [xsChunkPanics]; omega
-  have hcnt : xsChunkCount (s.length : Int) (n : Int) = (((s.length + n - 1) / n : Nat) : Int) := by
-    have e : ((s.length : Int) + (n : Int)) - 1 = ((s.length + n - 1 : Nat) : Int) := by omega
-    simp only [xsChunkCount]
-    rw [e, ← Int.ofNat_tdiv]
+  have hcnt : xsChunkMake (if xsChunkNonEmpty (s.length : Int) then xsChunkCount (s.length : Int) (n : Int) else xsChunkCount0)
+      = (((s.length + n - 1) / n : Nat) : Int) := by
+    simp only [xsChunkMake, xsChunkNonEmpty, xsChunkCount, xsChunkCount0, gt_iff_lt, decide_eq_true_eq]
+    by_cases h0 : s.length = 0
+    · have : (s.length + n - 1) / n = 0 := by rw [h0]; exact Nat.div_eq_of_lt (by omega)
+      rw [this, h0]; simp
+    · have hpos : (0 : Int) < (s.length : Int) := by omega
+      rw [if_pos hpos]
+      have e : ((s.length : Int) - 1) = ((s.length - 1 : Nat) : Int) := by omega
+      rw [e, ← Int.ofNat_tdiv]
+      have : (s.length + n - 1) / n = (s.length - 1) / n + 1 := by
+        have : s.length + n - 1 = (s.length - 1) + n := by omega
+        rw [this, Nat.add_div_right _ (by omega)]
+      rw [this]; simp
   let k := (s.length + n - 1) / n
   have hk : (s.length + n - 1) / n = k := rfl
   have hdm := Nat.div_add_mod (s.length + n - 1) n
